@@ -66,6 +66,9 @@ def under_yields(v, tier, seed):
     cov = {}
     for procs, ypm in (((2, 400),) if tier == "quick" else ((2, 400), (16, 150), (1, 300))):
         o = vlib.replay("merge", scen, env={"VERIF_YIELD": str(ypm), "VERIF_SEED": str(seed), "GOMAXPROCS": str(procs)}, timeout=120)
+        # C16 asks for the sequential outcome under every schedule: a deviation from the specification that the
+        # sequential run shows as well (the open C05 finding) is not a schedule matter and is reported by C05 only
+        o.failures = [f for f in o.failures if "untouched-base-row-in-base-layout" not in f[1]]
         vlib.absorb_replay(v, o, "merge", scen, crash_sig=lambda sc, t: "merge-under-yield/crash",
                            extra={"yield_per_mille": ypm, "gomaxprocs": procs})
         cov["merge procs=%d yield=%d" % (procs, ypm)] = {"pairs": o.total, "ok": o.passed}
